@@ -862,5 +862,13 @@ def r11_operand_value(ctx: Ctx) -> None:
     r4_literal_bases(ctx)
 
 
+def r12_suffix_and_index_case(ctx: Ctx) -> None:
+    """the width suffix and the index register select the encoding in either letter case: their text is folded before it keys the width list /
+    index map -- an unfolded `.W` is dropped and the width guessed from the operand value (shared with C16.R1)"""
+    from .c16 import r1_case_fold_before_keying
+
+    r1_case_fold_before_keying(ctx)
+
+
 RULES = [r1_table_subset_of_isa, r2_supported_set_kept, r3_operand_packing, r4_width_selection, r5_shape_to_mode,
-         r6_rejection_discipline, r7_field_plumbing, r8_lexer_token_facts, r9_mnemonic_recognition, r10_branch_displacement_byte, r11_operand_value, rb_binding_agreement, rm_no_process_lifetime_results, ru_names_bound]
+         r6_rejection_discipline, r7_field_plumbing, r8_lexer_token_facts, r9_mnemonic_recognition, r10_branch_displacement_byte, r11_operand_value, r12_suffix_and_index_case, rb_binding_agreement, rm_no_process_lifetime_results, ru_names_bound]
